@@ -252,6 +252,7 @@ fn main() {
     for case in &cases {
         let mut out = Out::default();
         let mut frames: Vec<u8> = vec![];
+        let mut phases: Vec<Phase> = vec![];
         let mut sid: u32 = 1;
         let mut sids: Vec<u32> = vec![];
         if !ready {
@@ -282,7 +283,19 @@ fn main() {
                     frames.extend(frame(T_HEADERS, 0x5, sid, &block_of_cont(&pairs(a))));
                     out.obs(&[]);
                 }
+                // phases: what was queued so far is sent, then the client waits for the end of the answer on a
+                // stream (`await <sid>`) or for a while (`wait <ms>`) before going on
+                "await" | "wait" => {
+                    phases.push(Phase::Send(std::mem::take(&mut frames)));
+                    phases.push(if op.name == "await" { Phase::Await(a[0].n() as u32) } else { Phase::Wait(a[0].n() as u64) });
+                    out.obs(&[]);
+                }
+                "rst" => {
+                    frames.extend(frame(T_RST, 0, sid, &(a[0].n() as u32).to_be_bytes()));
+                    out.obs(&[]);
+                }
                 "go" => {
+                    phases.push(Phase::Send(std::mem::take(&mut frames)));
                     new_case(&rec);
                     {
                         let mut g = rec2.lock().unwrap();
@@ -290,7 +303,7 @@ fn main() {
                         *g = H2Record::default();
                         g.epoch = e;
                     }
-                    let (outcomes, goaway) = run_conn(front, &frames, &sids);
+                    let (outcomes, goaway) = run_conn(front, &phases, &sids);
                     std::thread::sleep(Duration::from_millis(40));
                     let r = take_case(&rec);
                     let r2 = {
@@ -342,6 +355,7 @@ fn main() {
                     }
                     judge_h2c(&r2, sids.len(), &mut out);
                     frames.clear();
+                    phases.clear();
                     sids.clear();
                     sid = 1;
                 }
@@ -365,18 +379,44 @@ fn block_of_cont(hs: &HL) -> Vec<u8> {
     block_of(hs)
 }
 
+enum Phase {
+    Send(Vec<u8>),
+    Await(u32),
+    Wait(u64),
+}
+
 /// per stream: ("answered", 200) | ("refused", status or h2 error code) | ("silent", 0); and whether a GOAWAY was seen
-fn run_conn(front: SocketAddr, frames: &[u8], sids: &[u32]) -> (Vec<(u32, &'static str, u32)>, bool) {
+fn run_conn(front: SocketAddr, phases: &[Phase], sids: &[u32]) -> (Vec<(u32, &'static str, u32)>, bool) {
     let silent = |c: u32| -> (Vec<(u32, &'static str, u32)>, bool) { (sids.iter().map(|s| (*s, "silent", c)).collect(), false) };
     let Some(mut p) = Peer::connect(front) else { return silent(1) };
     if !p.handshake(&[]) {
         return silent(2);
     }
-    p.send(frames);
-    let want: Vec<u32> = sids.to_vec();
-    let fr = p.read_until(Duration::from_millis(5000), |f| {
-        f.iter().any(|x| x.t == T_GOAWAY) || want.iter().all(|s| f.iter().any(|x| x.sid == *s && (x.t == T_HEADERS || x.t == T_RST)))
-    });
+    let mut fr: Vec<Fr> = vec![];
+    for ph in phases {
+        match ph {
+            Phase::Send(b) => {
+                if !b.is_empty() {
+                    p.send(b);
+                }
+            }
+            Phase::Wait(ms) => std::thread::sleep(Duration::from_millis(*ms)),
+            Phase::Await(sid) => {
+                // the end of the answer on that stream: END_STREAM on HEADERS / DATA, RST_STREAM, or GOAWAY
+                let got = p.read_until(Duration::from_millis(3000), |f| {
+                    f.iter().any(|x| x.t == T_GOAWAY || (x.sid == *sid && (x.t == T_RST || ((x.t == T_HEADERS || x.t == T_DATA) && x.flags & 1 == 1))))
+                });
+                fr.extend(got);
+            }
+        }
+    }
+    let want: Vec<u32> = sids.iter().copied().filter(|s| !fr.iter().any(|x| x.sid == *s && (x.t == T_HEADERS || x.t == T_RST))).collect();
+    if !fr.iter().any(|x| x.t == T_GOAWAY) {
+        let got = p.read_until(Duration::from_millis(5000), |f| {
+            f.iter().any(|x| x.t == T_GOAWAY) || want.iter().all(|s| f.iter().any(|x| x.sid == *s && (x.t == T_HEADERS || x.t == T_RST)))
+        });
+        fr.extend(got);
+    }
     let goaway = fr.iter().any(|x| x.t == T_GOAWAY);
     let mut dec = loona_hpack::Decoder::new();
     let mut out = vec![];
